@@ -61,11 +61,24 @@ fn same_bytes(spec: &Spec, a: &[u8], b: &[u8], tail: usize) -> bool {
     };
     // a compound of several packets: member by member (a FIR member may order its entries differently)
     if let Spec::Compound { members } = inner {
-        let (ta, tb) = (crate::faults::tiles(a), crate::faults::tiles(b));
-        if ta != tb || ta.len() != members.len() || ta.iter().map(|t| t.1).sum::<usize>() != a.len() {
+        // member boundaries come from the members' own sizes, not from the length fields in the
+        // image: a member of more than 65536 words carries a wrapped length field
+        if a.len() != b.len() {
             return false;
         }
-        return members.iter().zip(ta.iter()).all(|(m, (o, l))| same_bytes(m, &a[*o..*o + *l], &b[*o..*o + *l], 0));
+        let mut off = 0usize;
+        for m in members {
+            let img = build_and_write(&plan_canonical(m), 0);
+            let l = match img.write {
+                WRes::Ok(n) => n,
+                _ => return false,
+            };
+            if off + l > a.len() || !same_bytes(m, &a[off..off + l], &b[off..off + l], 0) {
+                return false;
+            }
+            off += l;
+        }
+        return off == a.len();
     }
     if let Spec::FciOnly(Fci::Fir { .. }) = inner {
         if a.len() != b.len() || a.len() % 8 != 0 {
